@@ -22,6 +22,8 @@ pub const FAULTS: &[&str] = &[
     "cut", "cut x into", "cut x into y with", "join", "cast", "listen to", "give back", "return", "send", "say x plus", "say x at", "say not",
     "say x is greater than", "say x is as big as", "say x and", "say fun taking", "fun taking", "fun taking 1,", "put 1", "let x at be 1",
     "rock x with", "rock x like", "roll x into", "say roll", "put x at into y", "say -",
+    // (a') the last element of a list is missing after its separator word
+    "rock x with 4, 5, and", "let x be with 1, 2, and", "say 1 plus 2, and", "fun taking 1, and", "say fun taking 1, 2 &", "rock x with 1 &", "rock x with 1, 2 'n'", "fun takes k and", "fun takes k, and", "say 1 plus 2, and\nsay 3",
     // (b) required keyword removed
     "put 1 x", "let x 5", "take it to top", "take it the top", "take to the top", "say x is greater y", "say x is as big y", "say x is as y",
     "break it", "knock x up", "build x down", "x 5", "the is 5", "my", "put 1 into the",
